@@ -256,6 +256,7 @@ def oracle (prop : String) (cols : Option (List LineSpec.Col)) (input : Bytes) (
     | some cols => lineSpecViolation prop cols input i
     | none => none
   else if prop == "C14" then c14LineViolation input i
+  else if prop == "C16" then c01Violation i   -- a rejected line yields no output at all; an accepted one exactly one line
   else if i.panic then some "panic" else none
 
 def judge (prop : String) (what : String) (m : Outcome (Bytes × Option ErrClass)) (implS : String)
